@@ -874,9 +874,8 @@ def tamper_exact(sc, base, target, ver, data, pos, new, out):
                 f.write(mutated)
         except OSError:
             keep = "(not saved)"
-        # a damaged bz2 stream that simply ends (no error from the decompressor) leaves the container reader
-        # of bzrformats with a short file, on which it spins for ever
-        fam = "tampered-v4-bundle-container-reader-does-not-terminate" if ver == "4" else None
+        # (fixed in /repo by 8f646b8: an incomplete bz2 stream raises BadBundle; reported plainly if it returns)
+        fam = None
         out["viol"].append((case, "reading / installing a v%s bundle with byte %d changed from %#x to %#x does not "
                                   "terminate within %d s (mutated bundle saved as %s)" % (ver, pos, old, new, TAMPER_TIMEOUT, keep), fam))
         cnt["tamper:v%s:DOES-NOT-TERMINATE" % ver] += 1
@@ -1214,14 +1213,6 @@ FIELDS = ("revision_id", "testament_sha1", "time", "timezone", "target_branch", 
           "base_revision_id", "patch", "bundle")
 
 
-def classify_date(kw):
-    """family of a directive whose time / timezone do not survive: computed from the offset alone"""
-    tz = kw["timezone"]
-    if tz < 0 and (abs(tz) // 60) % 60 != 0:
-        return "patch-date-negative-offset-with-minutes"
-    return None
-
-
 def classify_directive(kw):
     """documented domain of the serialisation (everything else is reported as a plain violation)"""
     p, b = kw["patch"], kw["bundle"]
@@ -1254,9 +1245,8 @@ def directive_case(kw, out, via_file):
         return lines
     bad = [k for k in FIELDS if getattr(d2, k) != kw[k]]
     if bad and dom is None:
-        fam = classify_date(kw) if set(bad) <= {"time", "timezone"} else None
         out["viol"].append((case, "from_lines(to_lines(d)) differs from d in %s: %r / %r" % (
-            bad, [getattr(d2, k) for k in bad][:2], [kw[k] for k in bad][:2]), fam))
+            bad, [getattr(d2, k) for k in bad][:2], [kw[k] for k in bad][:2]), None))
     if dom is not None:
         out["count"]["outside-domain-roundtrip:%s" % ("differs" if bad else "equal")] += 1
     got_block = list(sh.consumed or [])
